@@ -25,7 +25,8 @@ NEWTYPE_POLICY = {
 def newtype_file(f, extra_drop=()):
     p = dict(NEWTYPE_POLICY)
     p['file'] = f
-    p['drop'] = list(extra_drop)
+    p['drop'] = list(extra_drop) + [r'impl (core::convert::)?TryFrom<.*', r'impl (core::str::)?FromStr for .*']
+    p['why'] = {'*': KANI_NEWTYPE}
     return p
 
 
